@@ -991,10 +991,10 @@ pub fn run(cx: &mut Ctx) {
 
     // builder programs: explain() and planned == reference
     let o = pipe::CheckOpts { par_vs_seq: false, vs_reference: true };
-    // GBK + lifted combine with a lawful NON-commutative combiner: the direct combine must give the literal
-    // group-then-combine's per-key result (last value in source order), in both modes
+    // GBK + lifted combine, planned vs literal on the real engine (lift pass skipped through the hook), also with a
+    // lawful NON-commutative combiner: the direct combine must give the literal group-then-combine's per-key result
     let n = cx.budget(250, 2500);
-    pipe::ordered_comb_cases(cx, n, &o);
+    pipe::lift_vs_literal_cases(cx, n);
     let n = cx.budget(500, 6000);
     for i in 0..n {
         let opts = pipe::GenOpts { max_steps: 8, max_rows: 20, barriers: true, joins: i % 7 == 0, globals: true, nonlocal_batches: false };
